@@ -22,3 +22,10 @@ package requeuer
 //@   ensures calls(P) == old(calls(P)) + 1 ==> has(msg.Metadata, RetriesKey) && msg.Metadata[RetriesKey] == itoa(nextRetries(old(msg.Metadata[RetriesKey]))) && (forall k string :: k != RetriesKey ==> has(msg.Metadata, k) == old(has(msg.Metadata, k)) && msg.Metadata[k] == old(msg.Metadata[k])) && msg.UUID == old(msg.UUID) && msg.Payload == old(msg.Payload) [retries-counter-raised-by-exactly-one-everything-else-intact]
 //@   ensures calls(T) == old(calls(T)) ==> calls(P) == old(calls(P)) && result != nil && metaKept(msg) [context-ended-during-the-delay]
 //@   modifies map(msg.Metadata)
+
+//@ func NewRequeuer
+//@   requires config.Router != nil ==> routerBuilt(config.Router)
+//@   ensures result1 != nil ==> result0 == nil
+//@   ensures result1 == nil ==> result0 != nil && result0.config.Publisher == config.Publisher && result0.config.GeneratePublishTopic == config.GeneratePublishTopic && result0.config.Delay == config.Delay && config.Publisher != nil && config.GeneratePublishTopic != nil [requeues-through-the-configured-publisher-and-topic-function]
+//@   ensures result1 == nil ==> ncalls(ADDNPH) == old(ncalls(ADDNPH)) + 1 && sarg(ADDNPH, 2, old(ncalls(ADDNPH))) == config.SubscribeTopic && sarg(ADDNPH, 3, old(ncalls(ADDNPH))) == config.Subscriber && isclosure(sarg(ADDNPH, 4, old(ncalls(ADDNPH))), "requeuer.(*Requeuer).handler$bound") && closurevar(sarg(ADDNPH, 4, old(ncalls(ADDNPH))), 0) == result0 [consumes-the-configured-topic-with-its-handler]
+//@   modifies map(config.Router.handlers), wg(config.Router.handlersWg)
